@@ -111,6 +111,13 @@ func (o *seqOracle) onLockWrite(inst int, old, new *ckInfo, applied bool, res st
 	if res == "conflict" {
 		in.roundConflict = true
 	}
+	if old != nil && res != "ok" {
+		// Lock.Replace returned an error to this process (whatever its flavour, applied or not): its sequencer must
+		// stop; it must never commit again before it is restarted
+		in.lockFailGen = in.gen + 1
+	} else if old != nil && applied && res == "ok" && in.lockFailGen == in.gen+1 {
+		o.fail("C17", "commit-after-lock-failure", "instance %d committed size %d although an earlier Lock.Replace of the same process had returned an error (the sequencer must have stopped)", inst, new.N)
+	}
 	if !applied {
 		return
 	}
